@@ -266,19 +266,96 @@ def _cred_value():
 
 
 T2_MODES = ["regular", "upstream:http://upstream:3128", "reverse:http://target:8000", "transparent", "socks5"]
-REQUEST_KINDS = ["absolute_http", "origin_http", "connect_then_plain_http", "connect_only"]
+REQUEST_KINDS = ["absolute_http", "origin_http", "connect_then_plain_http", "connect_only", "absolute_https_then_http_same_hostport"]
 
 
-def _drive(mode_spec, kind, with_auth, n_requests=2):
+class NullTLS:
+    """pyOpenSSL Connection stand-in with the identity cipher: the handshake completes at once, records are the plaintext.
+    Lets the sans-io harness run the real ServerTLSLayer (TLS to an origin / through a CONNECT tunnel) and read what travels."""
+
+    HELLO, ACK = b"<nulltls-hello>", b"<nulltls-ack>"
+
+    def __init__(self):
+        self._in, self._out = bytearray(), bytearray()
+        self._said_hello = self._done = False
+
+    def set_connect_state(self):
+        pass
+
+    def do_handshake(self):
+        # one round trip, like a real handshake: the layer only notices completion when the peer's bytes arrive
+        from OpenSSL import SSL
+        if self._done:
+            return None
+        if not self._said_hello:
+            self._said_hello = True
+            self._out += self.HELLO
+        if bytes(self._in[:len(self.ACK)]) == self.ACK:
+            del self._in[:len(self.ACK)]
+            self._done = True
+            return None
+        raise SSL.WantReadError()
+
+    def bio_write(self, data):
+        self._in += data
+        return len(data)
+
+    def bio_read(self, n):
+        from OpenSSL import SSL
+        if not self._out:
+            raise SSL.WantReadError()
+        d, self._out = bytes(self._out[:n]), self._out[n:]
+        return d
+
+    def recv(self, n):
+        from OpenSSL import SSL
+        if not self._in or not self._done:
+            raise SSL.WantReadError()
+        d, self._in = bytes(self._in[:n]), self._in[n:]
+        return d
+
+    def sendall(self, data):
+        self._out += data
+
+    def get_peer_cert_chain(self):
+        return []
+
+    def get_peer_certificate(self):
+        return None
+
+    def get_alpn_proto_negotiated(self):
+        return b""
+
+    def get_cipher_name(self):
+        return "NULL"
+
+    def get_protocol_version_name(self):
+        return "TLSv1.3"
+
+    def get_shutdown(self):
+        return 0
+
+
+class NullTlsAddon:
+    def tls_start_server(self, data):
+        data.ssl_conn = NullTLS()
+
+
+def _drive(mode_spec, kind, with_auth, n_requests=2, client_tls=False):
     """-> list of (role, connection address, direct bytes, tunnel payload bytes) per upstream connection"""
     from mitmproxy.addons import next_layer, upstream_auth
     from props.addons_sansio import Proxy
     ua = upstream_auth.UpstreamAuth()
-    p = Proxy(mode_spec, [next_layer.NextLayer(), ua], upstream_auth=(CRED if with_auth else None), connection_strategy="lazy")
+    p = Proxy(mode_spec, [next_layer.NextLayer(), ua, NullTlsAddon()], upstream_auth=(CRED if with_auth else None), connection_strategy="lazy")
+    if client_tls:
+        # secure web proxy: the client speaks TLS to mitmproxy; after termination the HTTP layers see client.tls == True
+        p.client.tls = True
+        p.client.timestamp_tls_setup = 1.5
     if mode_spec == "socks5":
         p.feed(b"\x05\x01\x00")
         p.feed(b"\x05\x01\x00\x03\x0bexample.com\x00\x50")
     tunnel_from = {}     # id(conn) -> offset at which tunnel payload starts
+    acked = set()
 
     def pump_upstream():
         # answer CONNECT requests of mitmproxy to the upstream proxy with 200, and plain requests with an empty 200
@@ -288,6 +365,11 @@ def _drive(mode_spec, kind, with_auth, n_requests=2):
             if data.startswith(b"CONNECT ") and data.endswith(b"\r\n\r\n") and data.count(b"\r\n\r\n") == 1:
                 tunnel_from[id(conn)] = len(data)
                 p.d.data(conn, b"HTTP/1.1 200 Connection established\r\n\r\n")
+        # the (identity-cipher) TLS peer answers the handshake
+        for conn, data in p.all_server_bytes():
+            if NullTLS.HELLO in data and id(conn) not in acked:
+                acked.add(id(conn))
+                p.d.data(conn, NullTLS.ACK)
 
     def answer_requests(seen):
         for conn, data in p.all_server_bytes():
@@ -307,7 +389,10 @@ def _drive(mode_spec, kind, with_auth, n_requests=2):
         for n in range(n_requests):
             if not p.client_alive():
                 break
-            target = b"http://example.com/r%d" % n if kind == "absolute_http" else b"/r%d" % n
+            if kind == "absolute_https_then_http_same_hostport":
+                target = (b"https://example.com:8443/r%d" if n == 0 else b"http://example.com:8443/r%d") % n
+            else:
+                target = b"http://example.com/r%d" % n if kind == "absolute_http" else b"/r%d" % n
             p.feed(b"GET " + target + b" HTTP/1.1\r\nHost: example.com\r\n\r\n")
             pump_upstream()
             answer_requests(seen)
@@ -336,22 +421,30 @@ def bounded(tier, seed):
     b.bound = "5 modes x 4 request kinds x 2; TLS inside tunnels and https upstream proxies are not exercised (no TLS handshake in the sans-io harness)"
     b.exhaustive = False
     cred = _cred_value()
-    for mode_spec, kind, with_auth in itertools.product(T2_MODES, REQUEST_KINDS, [True, False]):
-        if kind == "absolute_http" and not mode_spec.startswith(("regular", "upstream")):
+    for mode_spec, kind, with_auth, client_tls in itertools.product(T2_MODES, REQUEST_KINDS, [True, False], [False, True]):
+        if kind.startswith("absolute_http") and not mode_spec.startswith(("regular", "upstream")):
+            continue
+        if client_tls and not (mode_spec.startswith(("regular", "upstream")) and kind.startswith("absolute_http")):
             continue
         if kind.startswith("connect") and not mode_spec.startswith(("regular", "upstream")):
             continue
         if kind == "origin_http" and mode_spec.startswith(("regular", "upstream")):
             continue
-        inp = {"mode": mode_spec, "request": kind, "upstream_auth": with_auth}
+        inp = {"mode": mode_spec, "request": kind, "upstream_auth": with_auth, "client_tls": client_tls}
         try:
-            conns, p = _drive(mode_spec, kind, with_auth)
+            conns, p = _drive(mode_spec, kind, with_auth, client_tls=client_tls)
         except Exception as e:
             import traceback
-            b.case((mode_spec, kind, with_auth), nontrivial=False)
+            b.case((mode_spec, kind, with_auth, client_tls), nontrivial=False)
             b.fail("upstream_auth.total", inp, f"raised {type(e).__name__}: {e} {traceback.format_exc()[-500:]}")
             continue
-        b.case((mode_spec, kind, with_auth), nontrivial=with_auth and any(d or t for _, d, t in conns))
+        b.case((mode_spec, kind, with_auth, client_tls), nontrivial=with_auth and any(d or t for _, d, t in conns))
+        if with_auth and mode_spec.startswith("upstream") and kind.startswith("absolute_http"):
+            # the plain-http requests must reach the upstream proxy itself, in absolute-form, with the credentials
+            direct_all = b"".join(d for a, d, t in conns if _role(mode_spec, a) == "upstream_proxy")
+            n_plain = 1 if kind == "absolute_https_then_http_same_hostport" else 2
+            if direct_all.count(b"GET http://") != n_plain:
+                b.fail("upstream_auth.plain_http_goes_to_the_proxy_itself", inp, f"requests written to the upstream proxy: {direct_all[:300]!r}")
         for address, direct, tunnel_payload in conns:
             role = _role(mode_spec, address)
             dinp = dict(inp, connection=list(address), role=role)
